@@ -321,6 +321,7 @@ fn grammar_space(ctx: &Ctx, mode: Mode) -> (Vec<RefGrammar>, Vec<(String, usize)
         ("F-lalr", family_lalr()),
         ("F-lalr2", if mode == Mode::C02 { family_lalr2() } else { vec![] }),
         ("F-lalr3 (two-item kernels reached over paths of different lengths)", if mode == Mode::C04 && ctx.quick() { vec![] } else { family_lalr3(ctx.quick()) }),
+        ("F-lalr4 (two-item kernels one level down with a third party feeding the same successors)", if ctx.quick() && mode != Mode::C02 { vec![] } else { vcore::gram::family_lalr4() }),
         ("F-gc (tables whose construction strands a state) with edit-distance-1 neighbourhoods", family_gc()),
         ("F-pager (stored: every grammar of eight universes up to U(2,2,3,4,8) / U(2,2,2,5,9) whose construction re-processes into new states or garbage-collects)", family_pager().into_iter().map(|m| m.g).collect()),
         ("F-ternary", family_ternary()),
